@@ -3,7 +3,8 @@ chk("C14", "exploration",
     "attribute, every prefix-spelling x base string, through string / attribute / custom "
     "namespace / compound routes, judged by an independently written prefix-alias splitter. "
     "The space is finite and fully covered, so within the name inventory this is a complete "
-    "decision, not a sample.",
+    "decision, not a sample. Two histories on top: doubly-prefixed strings after the inner name was resolved, and every listed "
+    "spelling re-resolved in a custom registry after all canonical symbols were re-scaled (alias == canonical x prefix in that registry).",
     "Trusted: the hand-written alias/prefix table in vf/oracle/table.py and the name inventory "
     "read from unyt as data; scale accuracy of table rows themselves is C02's subject.",
     "exhaustive enumeration against an independent name resolver", "DESIGN.md §3 C14")
@@ -11,7 +12,9 @@ chk("C15", "exploration",
     "Exhaustive over the finite product constants x aliases x {plain,_mks,_cgs} x {default + 7 unit-system "
     "registries}, all defining relations and all unit/constant name overlaps; every guise is reduced to an SI "
     "magnitude and compared with the canonical one (1e-12), Gaussian guises via a hand-written CGS/SI pairing, "
-    "values against hand-written CODATA/IAU references within fixed tolerance classes.",
+    "values against hand-written CODATA/IAU references within fixed tolerance classes. Histories: user-defined unit systems "
+    "with offset temperature bases, registries of each system with re-scaled base units (all guises still one quantity) and a "
+    "plain registry built afterwards.",
     "Trusted: reference values/relations in vf/oracle/table.py (written from memory of CODATA 2018 / IAU 2015; "
     "class tolerances 1e-7..1e-3); alias inventory read from unyt as data plus a golden alias->constant list.",
     "exhaustive enumeration; cross-guise differential + algebraic relations", "DESIGN.md §3 C15")
@@ -19,7 +22,8 @@ chk("C02", "exploration",
     "Every documented name exhaustively against an independently written definition table; x.to(u2) over "
     "same-dimension pairs of all canonical prefixed names (sampled quick, all ~10^5 thorough); thousands of "
     "Hypothesis-generated compound expressions against an exact (40-digit) evaluator, including conversion to a "
-    "constructed commensurable partner and custom-registry units. Generated search cannot prove absence for "
+    "constructed commensurable partner, custom-registry units and user-defined symbols (add / define_unit / modify) in "
+    "plain, cgs, imperial, galactic, solar and custom-system registries probed in random order. Generated search cannot prove absence for "
     "compounds; the name part is complete.",
     "Trusted: vf/oracle/table.py definitions and tolerance classes; compounds judged against products of the "
     "library's own atomic scales; magnitudes beyond 1e+-280 excluded.",
@@ -29,7 +33,8 @@ chk("C05", "exploration",
     "in both orders), the homomorphism onto an independent (scale, dimension-vector) model and equality in both "
     "directions; thousands of Hypothesis-generated compound terms with rational/float exponents in default and "
     "custom registries for associativity, power laws, hashing, simplify()/as_coeff_unit() and re-evaluation of the "
-    "carried expression (expression/scale/dimension synchronisation).",
+    "carried expression (expression/scale/dimension synchronisation), registry membership of results, hashing of identity "
+    "factors, and simplify()/as_coeff_unit() before and after modify / re-add of a symbol.",
     "Trusted: dimension vectors read from unyt's sympy expressions as data; must-equal/must-differ thresholds 1e-12/1e-6; "
     "float under/overflow of intermediates excluded by a magnitude budget.",
     "exhaustive pair enumeration + Hypothesis algebraic-law testing against a (scale, dimvec) model", "DESIGN.md §3 C05")
@@ -38,7 +43,8 @@ chk("C01", "exploration",
     "call/outer/out=/.at forms, operators and in-place operators, 35 value-merging array functions, item assignment, "
     "conversion routes, Unit+Unit) with the dimension of every operand taken from an independent table; each cell is "
     "judged 'must raise and leave numbers+units of all operands unchanged' or the documented ==/!= answer. A control "
-    "population of same-dimension cells guards against an everything-raises tree. quick samples dimension pairs under "
+    "population of same-dimension cells guards against an everything-raises tree. Operand kinds include zero-filled quantities "
+    "and unit pairs produced by a registry history (a symbol removed and re-added with another dimension). quick samples dimension pairs under "
     "VERIF_SEED, thorough enumerates all representative pairs and all atomic-symbol pairs.",
     "Trusted: vf/oracle/table.py dimension vectors. Unjudged by design (pinned by the existing tests): bare Python numbers "
     "in array-function handlers/item assignment, a[i]=dimensionless quantity, ==/!= and isclose against a dimensionless "
@@ -47,7 +53,7 @@ chk("C01", "exploration",
 chk("C08", "exploration",
     "Exhaustive sweep over every ordered pair of temperature spellings (K, R, degC, degF, delta_degC, delta_degF and the "
     "SI-prefixed forms of the prefixable ones: 24 units quick, 69 thorough) x four conversion routes x (+,-) in operator, "
-    "ufunc, in-place and out= form x comparisons, with fixed and Hypothesis-drawn readings; per unit the diff/ediff1d/ptp "
+    "ufunc, in-place and out= form x comparisons, with fixed and Hypothesis-drawn readings held as float64, int64 and float32; per unit the diff/ediff1d/ptp "
     "helpers and ~60 multiplicative/power/root forms that must refuse. Every returned value is compared with an exact-rational "
     "affine model in kelvin, in the scale of the unit the result is labelled with.",
     "Trusted: the affine model (s, z) written from the statement; forms the statement does not list (point+point, "
@@ -58,7 +64,7 @@ chk("C03", "exploration",
     "factor by factor, all temperature spellings x SI prefixes, angle offsets lat/lon, the five CGS<->SI electromagnetic pairs "
     "with prefixes, custom-registry affine units with generated exact-rational scale and offset incl. negative scales, and "
     "float32/complex/integer data) pushed through to / in_units / to_value / convert_to_units / get_conversion_factor by hand / "
-    "in_base / in_mks / in_cgs and their in-place twins; identity, inverse and composition laws, route agreement in numbers and "
+    "in_base / in_mks / in_cgs and their in-place twins, with targets spelled as strings and as Unit objects; identity, inverse and composition laws, route agreement in numbers and "
     "resulting unit, exact rational expectation for generated affine parameters; the temperature pair table is enumerated "
     "exhaustively. The symbolic 'for all real scale/offset' clause is searched, not proved.",
     "Trusted: nothing but the laws themselves and exact Fraction arithmetic; tolerance 64 eps x (|value| + zero-point magnitudes / "
@@ -81,16 +87,17 @@ chk("C17", "exploration",
     "Hypothesis cases over the full integer ranges incl. mixed-unit binary ufuncs (operator, ufunc, in-place, out=, mixed operand "
     "widths). Oracle: exact Fraction conversion rounded to the float type of the input's item size (>=16 bit), complex stays "
     "complex, result dtype equality, copy/in-place agreement in dtype and values, RuntimeWarning iff a value beyond the documented "
-    "threshold loses precision.",
+    "threshold loses precision; with that warning raised as an error the in-place target is untouched or finished.",
     "Trusted: exact decimal definitions of the 14 unit ratios used; binary ufuncs may return a wider float and are judged at the "
     "width of the rescaled operand; 8-bit operands may refuse in place; overflow to inf of the prescribed type is allowed.",
     "dtype x route grid enumeration + Hypothesis values vs exact rational conversion", "DESIGN.md §3 C17")
 chk("C06", "exploration",
-    "Differential against NumPy itself: ~720 call templates over ~300 NumPy functions, ndarray methods (with axis/keyword "
+    "Differential against NumPy itself: ~910 call templates over ~300 NumPy functions, ndarray methods (with axis/keyword "
     "arguments), indexing forms, in-place targets and out= variants (numpy, numpy.linalg, numpy.fft) are evaluated on bare "
     "copies of Hypothesis-drawn data and on the same data with units attached (one unit per role: no rescaling), for float64, "
     "int64 and complex128 data; either the unyt call raises or structure, shapes, dtype kinds and values agree bit for bit "
-    "(<= 8 ulp classed as re-associated rounding), including mutated targets and out= buffers.",
+    "(<= 8 ulp classed as re-associated rounding), including mutated targets and out= buffers. Data include exact ties, zeros "
+    "and boundary arguments (t, tz roles).",
     "Trusted: NumPy on the bare data. A raise by the unyt call is accepted (the statement allows it; counted per function). "
     "Empty arrays and string-producing functions are not compared.",
     "catalogue enumeration x Hypothesis data, differential vs NumPy on bare arrays", "DESIGN.md §3 C06")
@@ -99,7 +106,8 @@ chk("C07", "exploration",
     "physical data - all roles in power-of-64 custom-registry units (bit-exact), one role only, a second registry that gives "
     "the same symbols other sizes (history/registry independence), and ordinary m->cm, s->ms (rel 1e-9). Unit-carrying results "
     "must denote the same SI magnitudes and dimension, bare results must be unchanged, presence of units may not depend on the "
-    "assignment; templates of the selection/reshaping/sorting/rounding/interpolation/location-spread class must return unyt "
+    "assignment; a role A2 holds the same dimension in another unit than role A (mixed-unit arguments: bins, pad values, "
+    "fill values, to_begin/to_end, search keys); templates of the selection/reshaping/sorting/rounding/interpolation/location-spread class must return unyt "
     "objects of the input's dimension. Includes products whose units cancel across different scales. No per-function expected "
     "unit is used.",
     "Trusted: SI scale/dimension of *result* units read from the library (C02/C05 judge those). Rounding family excluded from "
@@ -109,8 +117,9 @@ chk("C07", "exploration",
 chk("C16", "exploration",
     "Hypothesis cases over 12 shapes (0-d to 3-d incl. (1,), (1,1), empty), 11 units, dtypes, names and 16 indexing forms: "
     "constructors (view vs copy), indexing and iteration (class, units, name, values, view-ness), ~35 view/copy accessors judged "
-    "with np.shares_memory and write-through, ~60 unit-returning operations for the class/shape invariant, coercion of mixed-unit "
-    "lists against independent scales; plus the invariant over every unit-carrying leaf produced by the NumPy catalogue.",
+    "with np.shares_memory and write-through (also unit-carrying data times a Unit object), ~60 unit-returning operations for "
+    "the class/shape invariant, coercion of mixed-unit lists in length, temperature (zero points), energy, time, mass and angle "
+    "families; plus the invariant over every unit-carrying leaf produced by the NumPy catalogue.",
     "Trusted: np.shares_memory; the invariant is asserted exactly as stated (shape () => unyt_quantity, size > 1 => not a quantity); "
     "0-d operands are built as quantities (an explicit unyt_array(0-d ndarray) keeps the class the caller asked for).",
     "Hypothesis shape/index/accessor generation with class, aliasing and write-through invariants", "DESIGN.md §3 C16")
@@ -129,18 +138,20 @@ chk("C18", "fault_enumeration",
 chk("C09", "exploration",
     "Exhaustive sweep over all 30 ordered (equivalence, from-dimension, to-dimension) pairs of the 9 built-in equivalences x every "
     "input/target unit of per-dimension pools (SI, CGS, prefixed, compound), plus Hypothesis cases (units, intermediate member, "
-    "mu/gamma, values over +-12 decades within each formula's domain, scalar/array, int/float) through to_equivalent / to / "
+    "mu/gamma incl. array-valued against a scalar input, values over +-12 decades within each formula's domain, scalar/array, "
+    "int64/float64/float32) through to_equivalent / to / "
     "in_units / to_value / convert_to_equivalent / convert_to_units(equivalence=). Oracles: closed-form SI formula with the "
     "library's own constants, there-and-back, via-intermediate == direct, entry-point agreement, input snapshot for copying "
     "forms, in-place == copy, InvalidUnitEquivalence for uncovered requests (with the input left intact).",
     "Trusted: the nine formulas written from the statement/docstrings; constants and unit scales read from the library as data. "
-    "rel tol 1e-11 (lorentz 1e-7, beta <= 0.999999).",
+    "rel tol 1e-11 (lorentz 1e-7, beta <= 0.999999; float32 input 5e-6, never inf for a result inside double range).",
     "exhaustive (equivalence, from, to, units) sweep + Hypothesis values vs closed-form formulas, round-trip and path laws", "DESIGN.md §3 C09")
 chk("C10", "exploration",
     "Exhaustive: the 7 built-in unit systems x all atomic symbols of the independent table plus prefixed/compound/EM units "
     "(~1250 pairs); generated: user-defined UnitSystems (base units per dimension incl. quantity-valued bases, 0-3 overrides, "
     "with/without an MKS current) x atomic and compound units, a warmed and a cold copy of each system, quantities living in a "
-    "private code-unit registry, and one inconsistent construction per case. Judged: atoms of the result inside what the system "
+    "private code-unit registry, the same system name defined again with other base units, and one inconsistent construction per "
+    "case (half of them under the name of a registered system, which must keep answering). Judged: atoms of the result inside what the system "
     "was constructed with (own record), dimension preserved or documented EM counterpart, round trip, get_base_equivalent / "
     "convert_to_base / in_cgs / in_mks agreement, idempotence, independence of request history, result stays in its registry, "
     "IllDefinedUnitSystem for inconsistent bases.",
@@ -155,7 +166,8 @@ chk("C19", "exploration",
     "other units; incommensurable pairs must be refused by allclose_units, assert_allclose_units, np.allclose, np.isclose, "
     "np.array_equal; array_equal / array_equiv / assert_array_equal_units must reject physically equal but differently spelled "
     "operands. Decorators: exhaustive over every dimension in unyt.dimensions x SI/CGS/imperial/galactic spellings x 17 accepts "
-    "usages and 4 returns usages with an instrumented wrapped function (call counter, identity of the returned object).",
+    "usages and 4 returns usages with an instrumented wrapped function (call counter, identity of the returned object), plus "
+    "call histories (valid, swapped slots, valid ...) on one decorated function whose slots differ in dimension.",
     "Trusted: the SI scale of each of the 25 unit spellings is read from the library (cross-checked at 1e-5 against the "
     "independent table) so that the helpers' logic, not the table's accuracy, is judged. NumPy spellings only with atol=0; "
     "dimensionless operands excluded from the NumPy spellings (they adopt the other operand's unit by the library's tested contract).",
@@ -164,11 +176,12 @@ chk("C12", "exploration",
     "Exhaustive BFS over all histories up to length 3 (quick) / 4 (thorough) on a 16-letter alphabet of registry edits (add, re-add "
     "with other scale / dimension / prefixability, modify by float, modify by quantity incl. same-scale dimension swap, remove, "
     "define_unit, on a prefixable symbol, a plain one, an explicit symbol colliding with a derived prefixed spelling, and a default "
-    "symbol) with, after every step, a sweep of 22 probe strings (atomic, SI-prefixed, compound, sqrt) and 12 arithmetic / "
+    "symbol) with, after every step, a sweep of 26 probe strings (atomic, SI-prefixed, compound, sqrt, written-out names) and 12 arithmetic / "
     "conversion / base-reduction / printed-unit-sync observations (which also populate every cache before the next edit); "
     "Hypothesis histories of length 5-40 beyond. Oracle: a plain-dict model of the registry's explicit contents with its own "
     "prefix resolver (what a fresh registry with those contents answers), computed without touching the library. Units captured "
-    "before an edit must keep their value.",
+    "before an edit must keep their value; quantities held across an edit are converted / added / compared to the current "
+    "unit of the same spelling (old scale / new scale, or a refusal when the dimension changed).",
     "Trusted: scales of unedited default symbols read from the library's table as data; each history runs in a registry carrying a "
     "unique marker symbol so that the process-wide content-hash-keyed caches cannot mix histories (the cross-registry effect is "
     "C13's subject).",
@@ -191,8 +204,9 @@ chk("C20", "exploration",
     "unit factors, float vs rational exponents, unicode vs ASCII signs) must give equal units; units obtained by unit arithmetic "
     "(products, quotients, powers, simplify, print-simplify-print histories, custom registry) are printed with str/repr, re-parsed "
     "and pickled and must come back equal (identical expression and hash without a coefficient); token-level mutations with ~120 "
-    "hazard tokens must end in a Unit or UnitParseError. Exhaustive: str/repr round trip of every atomic and prefixed name; ~80 "
-    "non-vocabulary Python constructs that must be refused; ~75 strings that raise during evaluation. Every parse runs under an "
+    "hazard tokens must end in a Unit or UnitParseError. Exhaustive: str/repr round trip of every atomic and prefixed name; ~90 "
+    "non-vocabulary Python constructs that must be refused (incl. every non-vocabulary entry found in the parser's evaluation "
+    "namespace at run time); units with a numeric coefficient raised to fractional powers; ~75 strings that raise during evaluation. Every parse runs under an "
     "audit hook with canaries (file creation, builtins). thorough adds a 10-minute coverage-guided atheris/libFuzzer campaign on "
     "Unit(str) with the same oracle inside the target.",
     "Termination is not decided (liveness): numeric power towers are capped in the generators and a watchdog kills wedged workers; "
@@ -208,7 +222,9 @@ chk("C11", "exploration",
     "Immediately after restore: same bytes/dtype/shape/class, equal unit and str, same registry resolution of a probe set incl. "
     "user symbols; afterwards a behavioural differential against a never-persisted twin (same value, equal unit, or same "
     "exception class) covering angle-aware trig, temperature and logarithmic guards, unit-system conversion incl. the registry's "
-    "own default, conversion to custom units, arithmetic with the original, reductions.",
+    "own default, conversion to custom units, arithmetic with the original, reductions. Histories: the unit outlived a registry "
+    "edit before an object copy; the original registry is edited after the restore (a restored object with its own table is a "
+    "snapshot, and units parsed against its registry belong to it).",
     "HDF5 not exercised (h5py absent); pickle protocols 0/1 are refused loudly by SymPy itself and are not exercised; savetxt with "
     "a custom registry is not exercised (the text format cannot carry a registry). Derived results are compared at rel 1e-13.",
     "Hypothesis object x route x follow-up program generation; behavioural differential original vs restored", "DESIGN.md §3 C11")
